@@ -63,8 +63,10 @@ pub struct TState {
     pub knobs: BTreeMap<&'static str, u64>,
     pub events: Vec<Event>,
     pub counts: BTreeMap<&'static str, u64>,
-    /// canonical small ids for buffer addresses (first-seen order)
+    /// canonical small ids for decoder buffers (creation order; an address can be reused after a
+    /// cluster was evicted, so identity is (address, generation))
     addr_ids: BTreeMap<u64, u64>,
+    next_instance: u64,
     pub record_events: bool,
 }
 
@@ -72,7 +74,7 @@ pub struct THooks {
     pub st: Mutex<TState>,
 }
 
-const ADDR_SITES: [&str; 4] = ["dec_slice", "dec_written", "dec_publish", "dec_wait"];
+const ADDR_SITES: [&str; 5] = ["dec_create", "dec_slice", "dec_written", "dec_publish", "dec_wait"];
 
 impl verif_rt::Hooks for THooks {
     fn point(&self, site: &'static str, a: u64, b: u64) {
@@ -87,9 +89,13 @@ impl verif_rt::Hooks for THooks {
             let task = shuttle::current::get_current_task()
                 .map(|t| usize::from(t) as u16)
                 .unwrap_or(u16::MAX);
-            let a = if ADDR_SITES.contains(&site) {
-                let n = st.addr_ids.len() as u64;
-                *st.addr_ids.entry(a).or_insert(n)
+            let a = if site == "dec_create" {
+                let n = st.next_instance;
+                st.next_instance += 1;
+                st.addr_ids.insert(a, n);
+                n
+            } else if ADDR_SITES.contains(&site) {
+                st.addr_ids.get(&a).copied().unwrap_or(u64::MAX)
             } else {
                 a
             };
@@ -107,12 +113,19 @@ impl verif_rt::Hooks for THooks {
     }
 }
 
+static CURRENT: Mutex<Option<Arc<THooks>>> = Mutex::new(None);
+
 pub fn install_hooks() -> Arc<THooks> {
     let h = Arc::new(THooks {
         st: Mutex::new(TState::default()),
     });
     verif_rt::install(h.clone());
+    *CURRENT.lock().unwrap() = Some(h.clone());
     h
+}
+
+pub fn current_hooks() -> Arc<THooks> {
+    CURRENT.lock().unwrap().clone().expect("hooks installed")
 }
 
 impl THooks {
@@ -125,6 +138,7 @@ impl THooks {
         st.events.clear();
         st.counts.clear();
         st.addr_ids.clear();
+        st.next_instance = 0;
         st.record_events = record_events;
     }
     pub fn take(&self) -> (Vec<Event>, BTreeMap<&'static str, u64>) {
